@@ -13,9 +13,12 @@ VERIF = os.path.dirname(os.path.dirname(os.path.abspath(__file__)))
 REPO = os.environ.get("VERIF_REPO", "/repo")
 SPEC = os.path.join(VERIF, "spec")
 HARN = os.path.join(VERIF, "harness")
-BUILD = os.path.join(VERIF, "build")
-EVID = os.path.join(VERIF, "evidence")
-OUT = os.path.join(VERIF, "out")
+# VERIF_SCRATCH=<dir> (used with VERIF_REPO=<mutated copy>) keeps build output, logs and evidence of a
+# run against another tree away from the real ones
+_SCR = os.environ.get("VERIF_SCRATCH")
+BUILD = os.path.join(_SCR or VERIF, "build")
+EVID = os.path.join(_SCR or VERIF, "evidence")
+OUT = os.path.join(_SCR or VERIF, "out")
 GUARD = "LIBTMCG_VERIF"
 NCPU = os.cpu_count() or 4
 
